@@ -6392,7 +6392,7 @@ static int32_t parseSingleResponse(uint32_t len, const unsigned char **cp,
     psAssert(plen == 0);
     res->certIdHashAlg = oi;
 
-    if ((*p++ != ASN_OCTET_STRING) ||
+    if ((end - p) < 1 || (*p++ != ASN_OCTET_STRING) ||
         getAsnLength(&p, (int32) (end - p), &glen) < 0 ||
         (uint32) (end - p) < glen)
     {
@@ -6401,7 +6401,7 @@ static int32_t parseSingleResponse(uint32_t len, const unsigned char **cp,
     res->certIdNameHash = p;
     p += glen;
 
-    if ((*p++ != ASN_OCTET_STRING) ||
+    if ((end - p) < 1 || (*p++ != ASN_OCTET_STRING) ||
         getAsnLength(&p, (int32) (end - p), &glen) < 0 ||
         (uint32) (end - p) < glen)
     {
@@ -6414,8 +6414,9 @@ static int32_t parseSingleResponse(uint32_t len, const unsigned char **cp,
 
         CertificateSerialNumber  ::=  INTEGER
      */
-    if ((*p != (ASN_CONTEXT_SPECIFIC | ASN_PRIMITIVE | 2)) &&
-        (*p != ASN_INTEGER))
+    if ((end - p) < 1 ||
+        ((*p != (ASN_CONTEXT_SPECIFIC | ASN_PRIMITIVE | 2)) &&
+         (*p != ASN_INTEGER)))
     {
         psTraceCrypto("X.509 getSerialNum failed on first bytes\n");
         return PS_PARSE_FAIL;
@@ -6439,6 +6440,11 @@ static int32_t parseSingleResponse(uint32_t len, const unsigned char **cp,
      */
     Memset(res->revocationTime, 0, sizeof(res->revocationTime));
     res->revocationReason = 0;
+    if ((end - p) < 2)
+    {
+        psTraceCrypto("OCSP CertStatus parse fail\n");
+        return PS_PARSE_FAIL;
+    }
     if (*p == (ASN_CONTEXT_SPECIFIC | ASN_PRIMITIVE | 0))
     {
         res->certStatus = 0;
@@ -6453,7 +6459,8 @@ static int32_t parseSingleResponse(uint32_t len, const unsigned char **cp,
                 revocationReason    [0]     EXPLICIT CRLReason OPTIONAL }
          */
         p += 1;
-        if (getAsnLength(&p, (int32) (end - p), &glen) < 0)
+        if (getAsnLength(&p, (int32) (end - p), &glen) < 0 ||
+            (uint32) (end - p) < glen)
         {
             psTraceCrypto("Initial parseSingleResponse parse failure\n");
             return PS_PARSE_FAIL;
@@ -6502,7 +6509,7 @@ static int32_t parseSingleResponse(uint32_t len, const unsigned char **cp,
         {
             return PS_PARSE_FAIL;
         }
-        if (*p == ASN_GENERALIZEDTIME && glen > 2)
+        if (glen > 2 && *p == ASN_GENERALIZEDTIME)
         {
             res->nextUpdate = p + 2;
             res->nextUpdateLen = glen - 2;
@@ -6597,6 +6604,11 @@ static int32_t ocspParseBasicResponse(psPool_t *pool, uint32_t len,
             byKey                [2] KeyHash }
      */
 
+    if ((end - p) < 1)
+    {
+        psTraceCrypto("ResponderID parse error in ResponseData\n");
+        return PS_PARSE_FAIL;
+    }
     if (*p == (ASN_CONTEXT_SPECIFIC | ASN_CONSTRUCTED | 1))
     {
         const unsigned char *p2;
@@ -6635,7 +6647,7 @@ static int32_t ocspParseBasicResponse(psPool_t *pool, uint32_t len,
                          -- BIT STRING subjectPublicKey [excluding
                          -- the tag, length, and number of unused
                          -- bits] in the responder's certificate) */
-        if ((*p++ != ASN_OCTET_STRING) ||
+        if (blen < 1 || (*p++ != ASN_OCTET_STRING) ||
             getAsnLength(&p, (int32) (end - p), &glen) < 0 ||
             (uint32) (end - p) < glen ||
             glen != SHA1_HASH_SIZE)
@@ -6707,7 +6719,7 @@ static int32_t ocspParseBasicResponse(psPool_t *pool, uint32_t len,
         }
     }
     /* responseExtensions   [1] EXPLICIT Extensions OPTIONAL } */
-    if (*p == (ASN_CONTEXT_SPECIFIC | ASN_CONSTRUCTED | 1))
+    if (p < end && *p == (ASN_CONTEXT_SPECIFIC | ASN_CONSTRUCTED | 1))
     {
         if (parse_nonce_ext(p, end - p, &res->nonce) != PS_SUCCESS)
         {
@@ -6813,13 +6825,13 @@ static int32_t ocspParseBasicResponse(psPool_t *pool, uint32_t len,
         return PS_UNSUPPORTED_FAIL;
     }
 
-    if (*p++ != ASN_BIT_STRING)
+    if ((end - p) < 1 || *p++ != ASN_BIT_STRING)
     {
         psTraceCrypto("Error parsing signature in ResponseData\n");
         return PS_PARSE_FAIL;
     }
     if (getAsnLength(&p, (int32) (end - p), &glen) < 0 ||
-        (uint32) (end - p) < glen)
+        (uint32) (end - p) < glen || glen < 1)
     {
         psTraceCrypto("Error parsing signature in ResponseData\n");
         return PS_PARSE_FAIL;
@@ -6945,7 +6957,7 @@ int32_t psOcspParseResponse(psPool_t *pool, int32_t len, unsigned char **cp,
     }
 
     /* responseBytes       [0] EXPLICIT ResponseBytes OPTIONAL, */
-    if (*p == (ASN_CONSTRUCTED | ASN_CONTEXT_SPECIFIC | 0))
+    if (p < end && *p == (ASN_CONSTRUCTED | ASN_CONTEXT_SPECIFIC | 0))
     {
         p++;
         if (getAsnLength32(&p, (uint32_t) (end - p), &blen, 0) < 0 ||
@@ -6971,7 +6983,7 @@ int32_t psOcspParseResponse(psPool_t *pool, int32_t len, unsigned char **cp,
             psTraceCrypto("responseType parse error in psOcspParseResponse\n");
             return PS_PARSE_FAIL;
         }
-        if ((*p++ != ASN_OCTET_STRING) ||
+        if ((end - p) < 1 || (*p++ != ASN_OCTET_STRING) ||
             getAsnLength32(&p, (int32) (end - p), &blen, 0) < 0 ||
             (uint32) (end - p) < blen)
         {
